@@ -42,6 +42,9 @@ func main() {
 	props.Seed = seed
 	props.VerifDir = *verif
 	thorough := *tier == "thorough"
+	if p.Init != nil {
+		p.Init(*verif)
+	}
 	if *replay != "" {
 		b, err := os.ReadFile(*replay)
 		if err != nil {
